@@ -1,7 +1,7 @@
 import Wayfind.Proofs.Unique5
 import Wayfind.Proofs.RoutesNodup
 import Wayfind.Generated.Facts
-import Wayfind.Proofs.DrawText3
+import Wayfind.Proofs.DrawText4
 
 /-! # C15 — the printed tree is the canonical compressed radix tree of the live routes
 On every router reachable through the API the tree is **canonical** (`C15_tree_canonical`; the predicates are
@@ -117,3 +117,25 @@ loses (the kind of a child is visible in its label, `{…}` / `{*…}` / `:const
 theorem C15_printed_text_determines_tree (n1 n2 : Node) (h1 : Node.drawable n1 = true) (h2 : Node.drawable n2 = true)
     (h : Node.lines "" "" true true n1 = Node.lines "" "" true true n2) : Node.kidTrees n1 = Node.kidTrees n2 :=
   lines_determine_tree n1 n2 h1 h2 h
+
+/-- **From the lines to the text.** `Display` joins the printed lines with newlines and trims white space off the end. On
+every reachable router (labels readable, no label containing a newline) the last printed line is that of a marked node — every
+leaf holds a route — so the text ends in `]`, **the final `trim_end` removes nothing** (a label ending in blanks is never cut),
+and splitting the text at its newlines gives back exactly the printed lines. With the three theorems above the *text* — not
+only the list of lines — reads back as the nodes, routes and tree of printed labels. (`joinNL`, `splitNL`, `trimEndC` are
+`join("\n")`, `split('\n')` and `trim_end` on character lists.) -/
+theorem C15_text_determines_lines (r : Router) (h : Reachable r) (hdr : Node.drawable r.root = true)
+    (hnl : ∀ l ∈ Node.lines "" "" true true r.root, '\n' ∉ l.toList) :
+    let ls := (Node.lines "" "" true true r.root).map String.toList
+    trimEndC (joinNL ls) = joinNL ls ∧ (ls ≠ [] → splitNL (joinNL ls) = ls) :=
+  display_text_lines r.root (reachable_good3 r h).1 hdr hnl
+
+/-- the last printed node of a reachable router is marked -/
+theorem C15_last_printed_node_is_marked (r : Router) (h : Reachable r) (hdr : Node.drawable r.root = true) :
+    ∀ e, (Node.dents 0 [] r.root).getLast? = some e → e.2.2 = true :=
+  root_dents_last_marked r.root (reachable_good3 r h).1 hdr
+
+/-- non-vacuity of the text lemmas: three lines, the last one marked and ending in a blank label -/
+example : splitNL (joinNL ["/a".toList, "├─ b".toList, "╰─ c  [*]".toList]) = ["/a".toList, "├─ b".toList, "╰─ c  [*]".toList] ∧
+    trimEndC (joinNL ["/a".toList, "╰─ c  [*]".toList]) = joinNL ["/a".toList, "╰─ c  [*]".toList] ∧
+    trimEndC "/a ".toList = "/a".toList := by decide
